@@ -108,12 +108,10 @@ PredictTryWith(e, ar, se) ==
               r2 == IF e.closk = 0 THEN [ok |-> TRUE, a |-> r1.a, sent |-> r1.sent, reqs |-> <<>>, addr |-> 0]
                     ELSE Alloc(r1.a, r1.sent, IF e.closk = 3 THEN 0 ELSE e.closn, 1, rest, FUEL)
               \* closure kind 2 releases what it allocated
+              \* (the initialiser uses the fallible flavour: if its own request fails nothing changes)
               r3 == IF e.closk = 2 /\ r2.ok THEN Dealloc(r2.a, r2.sent, r2.addr, e.closn)
                     ELSE [a |-> r2.a, sent |-> r2.sent]
-          IN IF ~r2.ok
-             THEN \* the initialiser's own (infallible) allocation failed: it panics
-                  [a |-> r2.a, sent |-> r2.sent, res |-> "panic", addr |-> 0, reqs |-> r1.reqs \o r2.reqs,
-                   frees |-> <<>>, checkaddr |-> FALSE]
+          IN IF FALSE THEN Nop(ar, se, "ok")
              ELSE IF e.okf = 1
              THEN [a |-> r3.a, sent |-> r3.sent, res |-> "ok", addr |-> r1.addr + e.off, reqs |-> r1.reqs \o r2.reqs,
                    frees |-> <<>>, checkaddr |-> TRUE]
